@@ -103,6 +103,9 @@ def export_case(case):
         texts = {}
         try:
             fd, path = tempfile.mkstemp(suffix="." + doc_type)
+            # the file exists already and holds an older, longer document
+            os.write(fd, ("[FileInfo]\nFileName=old\n" + "".join(f"[{0x7000 + k:X}]\nParameterName=old {k}\nObjectType=0x7\n"
+                                                                 f"DataType=0x0005\nAccessType=rw\n" for k in range(600))).encode())
             os.close(fd)
             canopen.export_od(od0, path)             # doc type from the suffix
             with open(path) as fh:
@@ -118,7 +121,26 @@ def export_case(case):
         except Exception as exc:  # noqa
             rows.append({"kind": "crash", "repr": f"export {doc_type}: {type(exc).__name__}: {exc}"[:200]})
             continue
-        parsed = {k: eds.parse_export(t) for k, t in texts.items()}
+        # the same text for every destination; a text the independent reader cannot even read is
+        # judged by its raw lines (and the stream's text stands in for it further down)
+        parsed = {}
+        for k, t in texts.items():
+            try:
+                parsed[k] = eds.parse_export(t)
+            except Exception as exc:  # noqa
+                parsed[k] = None
+                rows.append({"kind": "same", "a": [["unreadable " + k, [[type(exc).__name__, ""]]]], "b": [], "dest": k,
+                             "doc_type": doc_type})
+        if texts["path"] != texts["stream"] and parsed.get("path") is not None and parsed.get("stream") is not None \
+                and parsed["path"]["file"] == parsed["stream"]["file"]:
+            rows.append({"kind": "same", "a": [["text differs", [["len", str(len(texts["path"]))]]]], "b": [],
+                         "dest": "stream", "doc_type": doc_type})
+        ref = next((parsed[k] for k in ("stream", "stdout", "path") if parsed.get(k) is not None), None)
+        if ref is None:
+            continue
+        for k in list(parsed):
+            if parsed[k] is None:
+                parsed[k] = ref
         # (i) the destination does not change the document
         for k in ("stream", "stdout"):
             a = sorted([s, [list(x) for x in kv]] for s, kv in parsed["path"]["file"].items())
